@@ -814,3 +814,29 @@ fire('C13', 'belt-new-item-delay-times-speed', 'C13.R7', 'BeltStore.handle_new_i
      lambda p: M.replace_node(p, S_BELT, 'BeltStore.handle_new_item_during_interruption', M.assign_to('delay_for_new_item'), 'delay_for_new_item = delay_for_new_item * (item_length * self.speed)', which=1))
 silent('C13', 'belt-plan-delay-factor-commuted',
        lambda p: M.replace_node(p, S_BELT, 'BeltStore._execute_interruption_plan', M.assign_to('delay'), 'delay = (item_length / self.speed) * delay', which=1))
+
+
+# ============================================================================================ refactoring fixtures
+# Behaviour-preserving refactorings of whole modules written by independent agents (extract helper, queue / grant function passed as
+# arguments, loop over the holder lists, guard clauses, local aliases, module constants, sub-generators, reflection by constant name ...).
+# Each was shown equivalent by an event-trace fingerprint (equiv_demo.py next to the files).  No rule may report anything new on them.
+import pathlib as _pl
+_FIX = _pl.Path(__file__).resolve().parent.parent.parent / 'fixtures' / 'refactors'
+
+
+def _fixture(name):
+    def build(p):
+        out = {}
+        for f in sorted((_FIX / name).rglob('*.py')):
+            if f.name == 'equiv_demo.py':
+                continue
+            out[str(f.relative_to(_FIX / name))] = f.read_text()
+        if not out:
+            raise M.Stale(f'fixture {name} missing')
+        return out
+    return build
+
+
+for _fx in sorted(d.name for d in _FIX.iterdir() if d.is_dir()) if _FIX.is_dir() else []:
+    for _prop in ('C01', 'C02', 'C03', 'C04', 'C05', 'C06', 'C07', 'C08', 'C09', 'C10', 'C11', 'C12', 'C13', 'C14', 'C15', 'C16', 'C17', 'C18', 'C19', 'C20'):
+        silent(_prop, f'refactoring fixture {_fx} (whole-module behaviour-preserving rewrite)', _fixture(_fx))
